@@ -24,5 +24,16 @@ Print Assumptions C09_at_least_one.
 Theorem C09_no_estimate : ivw [] = 1. Proof. reflexivity. Qed.
 Print Assumptions C09_no_estimate.
 
-(* NOT proved: that lsmr returns the minimum-norm solution (so that each estimate is the BLUE) and the optimality of
-   inverse-variance weights (ivw_optimal_partial); `known total used exactly` is definitional in _setup and is checked per run. *)
+(* OPTIMAL WEIGHTS (on the reals): any combination of independent unbiased estimates with weights summing to one has variance
+   sum w_i^2 v_i >= 1/sum(1/v_i), and the inverse-variance weights (1/v_i)/sum(1/v_j) used by ivw attain it *)
+Require Import Reals PGM.Proofs.IvwP.
+Theorem C09_inverse_variance_lower_bound (l : list (R * R)) : l <> [] -> (forall p, In p l -> (0 < snd p)%R) -> sumw l = 1%R -> (/ prec l <= varc l)%R.
+Proof. exact (ivw_lower_bound l). Qed.
+Print Assumptions C09_inverse_variance_lower_bound.
+Theorem C09_inverse_variance_weights_attain (vs : list R) : vs <> [] -> (forall v, In v vs -> (0 < v)%R) ->
+  sumw (ivweights vs) = 1%R /\ varc (ivweights vs) = (/ prec (ivweights vs))%R.
+Proof. exact (ivw_attains vs). Qed.
+Print Assumptions C09_inverse_variance_weights_attain.
+
+(* NOT proved: that lsmr returns the minimum-norm solution (so that each single estimate is the BLUE of its measurement); `known total
+   used exactly` is definitional in _setup and is checked per run. *)
